@@ -516,6 +516,9 @@ def explore(ctx: Ctx):
             if out is None:
                 continue
             d2, idx = out
+            # an invalid design stays invalid whatever the force flags (they only concern background variants): a third of them carry both
+            if d2.get('opts') is not None and rng.random() < 0.33:
+                d2['opts'] = dict(d2['opts'], force_ns=True, force_fs=True)
             jobs.append(d2)
             meta.append(('invalid', inj.__name__[4:], idx))
             made += 1
